@@ -307,6 +307,7 @@ impl Check for CmdCheck {
             max_batch: crng.range(1, 3) as u32,
             drops: crng.chance(3, 5),
             bridge_drops: self.diff_hosts.is_empty(),
+            bad_items: true,
             dups: crng.chance(2, 5),
             aborts: true,
             noops: crng.chance(1, 3),
@@ -529,10 +530,14 @@ impl Check for CmdCheck {
             // pin the failing placement first
             let ck = self.checks();
             let mut cov = Cov::default();
-            if let Ok(base) = run_scenario_on(&s.scn, s.scn.host, &ck, &mut cov) {
-                for p in placements(&s.scn, &base.boundaries, s.scn.host.is_direct(), s.scn.host.is_bridge()) {
-                    out.push(CmdScn { placement: Some(p), ..s.clone() });
+            match run_scenario_on(&s.scn, s.scn.host, &ck, &mut cov) {
+                Ok(base) => {
+                    for p in placements(&s.scn, &base.boundaries, s.scn.host.is_direct(), s.scn.host.is_bridge()) {
+                        out.push(CmdScn { placement: Some(p), ..s.clone() });
+                    }
                 }
+                // the base script itself fails: no cancellation needs to be injected
+                Err(_) => out.push(CmdScn { enumerate: false, ..s.clone() }),
             }
             return out;
         }
